@@ -413,6 +413,15 @@ pub struct History {
     /// the directory was produced by a crash: the verifier's acceptance is only promised for
     /// histories without faults, so its verdict is recorded, not demanded
     pub crash_image: bool,
+    last_staging: Option<String>,
+    /// calls of the compaction step so far; the call that performed the last rewriting compaction
+    pub compaction_calls: u64,
+    last_rewriting_call: u64,
+    last_rewriting_step: usize,
+    /// calls whose rewriting compaction was followed by one staging under the same directory
+    pub staging_pairs: Vec<u64>,
+    /// stop (with a `stop` pseudo-violation) right before this compaction call
+    pub stop_before_call: Option<u64>,
 }
 
 fn key_space(rng: &mut Rng) -> Vec<Vec<u8>> {
@@ -474,6 +483,12 @@ impl History {
             seen_frags: BTreeMap::new(),
             ledger_checked: HashSet::new(),
             crash_image: false,
+            last_staging: None,
+            compaction_calls: 0,
+            last_rewriting_call: 0,
+            last_rewriting_step: 0,
+            staging_pairs: Vec::new(),
+            stop_before_call: None,
         }
     }
 
@@ -502,6 +517,12 @@ impl History {
             seen_frags: BTreeMap::new(),
             ledger_checked: HashSet::new(),
             crash_image: false,
+            last_staging: None,
+            compaction_calls: 0,
+            last_rewriting_call: 0,
+            last_rewriting_step: 0,
+            staging_pairs: Vec::new(),
+            stop_before_call: None,
         }
     }
 
@@ -791,6 +812,10 @@ impl History {
     }
 
     fn step_compaction_inner(&mut self) -> Result<(), Viol> {
+        self.compaction_calls += 1;
+        if self.stop_before_call == Some(self.compaction_calls) {
+            return Err(v("stop", "stop", String::new()));
+        }
         let r = match self.backend.as_ref().unwrap() {
             Backend::Kvs(k) => {
                 let k: &'static KeyValueStore = k;
@@ -838,6 +863,21 @@ impl History {
                 return Err(v("C05", "move-changed-files", format!("a moving compaction changed the listed set: {:?} -> {:?}", before_listed, after_listed)));
             }
             return Ok(true);
+        }
+        // the staging directory of a rewriting compaction is named by the sum of its inputs: does the
+        // next rewriting compaction stage under the same name (its inputs are the last one's outputs)?
+        {
+            let acc: Setsum = rewriting.iter().flat_map(|e| e.removed.iter()).filter_map(|r| Setsum::from_hexdigest(r)).fold(Setsum::default(), |a, b| a + b);
+            if self.last_staging == Some(acc.hexdigest()) {
+                self.count("c20.rewriting_compaction_stages_under_its_predecessors_directory", 1);
+                // a pair two threads can run back to back: nothing but compactions in between
+                if self.steps[self.last_rewriting_step..].iter().all(|s| s.starts_with("compaction(")) {
+                    self.staging_pairs.push(self.last_rewriting_call);
+                }
+            }
+            self.last_staging = Some(acc.hexdigest());
+            self.last_rewriting_call = self.compaction_calls;
+            self.last_rewriting_step = self.steps.len() + 1;
         }
         let gc = rewriting.iter().any(|e| hexsum(&e.d).map(|d| d != Setsum::default()).unwrap_or(false));
         self.steps.push(format!("compaction({}) {shape_before:?}->{shape_after:?} -{} +{}", if gc { "gc" } else { "merge" }, rewriting.iter().map(|e| e.removed.len()).sum::<usize>(), rewriting.iter().map(|e| e.added.len()).sum::<usize>()));
@@ -1108,9 +1148,12 @@ impl History {
             // MANIFEST" leaves the same fragment under two names (the second possibly extended
             // since): one fragment, not two
             if let Some((_, prev)) = read.last() {
-                if edits.len() >= prev.len() && edits[..prev.len()] == prev[..] {
+                if prev.len() >= 2 && edits.len() >= prev.len() && edits[..prev.len()] == prev[..] {
+                    if std::env::var("VH_TRACE_LEVELS").is_ok() {
+                        eprintln!("linked twice: fragment {id} ({} edits) extends the previous one ({} edits): {:?}", edits.len(), prev.len(), prev);
+                    }
                     read.pop();
-                    self.count("c04.fragment_linked_twice_after_crash", 1);
+                    self.count("c04.fragments_repeating_their_predecessor", 1);
                 }
             }
             read.push((*id, edits));
@@ -1620,6 +1663,39 @@ impl History {
         self.close();
         skipfree::verif::set_registry(false);
         res.err()
+    }
+
+    /// Like `run`, but leaves the store open (for a hand-over to real threads).
+    pub fn run_keep_open(&mut self, rng: &mut Rng, scratch: &Scratch, nsteps: usize) -> Option<Viol> {
+        lsmtk::verif::set_single_step(true);
+        self.run_inner(rng, scratch, nsteps).err()
+    }
+
+    pub(crate) fn backend_threads(&self, n: usize) -> Vec<std::thread::JoinHandle<Result<(), String>>> {
+        let mut hs = Vec::new();
+        for _ in 0..n {
+            match self.backend.as_ref().unwrap() {
+                Backend::Kvs(k) => {
+                    let k: &'static KeyValueStore = k;
+                    hs.push(std::thread::spawn(move || k.compaction_thread().map_err(|e| e.to_string())));
+                }
+                Backend::Tree(t) => {
+                    let t: &'static LsmTree = t;
+                    hs.push(std::thread::spawn(move || t.compaction_thread().map_err(|e| e.to_string())));
+                }
+            }
+        }
+        hs
+    }
+
+    /// Forget the store without running destructors (real threads still use it).
+    pub(crate) fn leak_backend(&mut self) {
+        self.held.clear();
+        self.backend = None;
+    }
+
+    pub(crate) fn reads_ok(&mut self) -> Result<(), Viol> {
+        self.check_reads()
     }
 
     fn run_inner(&mut self, rng: &mut Rng, scratch: &Scratch, nsteps: usize) -> Result<(), Viol> {
